@@ -554,8 +554,14 @@ pub fn c10_weights(c: &FuCtx, rec: &mut Rec) {
             if !has_open && post.wraw.contains_key(&(u, li)) {
                 rec.viol("C10_weight_without_open_position", format!("user {u} lp{li}: entries {:?}", post.wraw.get(&(u, li))));
             }
-            if has_open && post.weight(u, li, post.cur + 1) == 0 {
-                rec.viol("C10_open_position_without_weight", format!("user {u} lp{li}"));
+            // a position's weight is at least its amount: while nothing was closed partially or topped up in pieces on
+            // this LP (the statement's own carve-out for the non-additive per-user bookkeeping) the user's weight
+            // covers the amounts of their open positions
+            if has_open && !c.g1.pieces.contains(&li) {
+                let open_sum: u128 = post.positions.iter().filter(|p| p.open && p.receiver == c.w.users[u] && p.lp_asset.denom == post.lps[li]).map(|p| p.lp_asset.amount.u128()).sum();
+                if post.weight(u, li, post.cur + 1) < open_sum {
+                    rec.viol("C10_weight_below_open_amount", format!("user {u} lp{li}: weight {} < open LP {open_sum}", post.weight(u, li, post.cur + 1)));
+                }
             }
         }
         // changes take effect from the epoch after the operation: nothing at or before the current epoch moves
@@ -753,7 +759,7 @@ pub fn c11_farms(c: &FuCtx, rec: &mut Rec) {
 
 // ------------------------------------------------------------------------------------------ jobs
 pub fn jobs_c05(tier: Tier) -> Vec<Job> {
-    let mut full = FuChecker::new("c05-fu-full", vec!["F0", "F2", "F3"], FAlpha::Full, vec![c05_custody]);
+    let mut full = FuChecker::new("c05-fu-full", vec!["F0", "F2", "F3", "F5"], FAlpha::Full, vec![c05_custody]);
     full.reward_denoms = vec!["uusdc", "lp1"];
     full.state_oracles = vec![c05_drain];
     let mut core = FuChecker::new("c05-fu-reward", vec!["F3", "F4"], FAlpha::Reward, vec![c05_custody]);
@@ -775,8 +781,8 @@ pub fn jobs_c07(tier: Tier) -> Vec<Job> {
     vec![explore_job(r, tier.pick(3, 4), Caps::default()), explore_job(d, tier.pick(3, 4), Caps::default())]
 }
 pub fn jobs_c08(tier: Tier) -> Vec<Job> {
-    let full = FuChecker::new("c08-fu-full", vec!["F0", "F2", "F4"], FAlpha::Full, vec![c08_positions]);
-    let p = FuChecker::new("c08-fu-positions", vec!["F1", "F4"], FAlpha::Positions, vec![c08_positions]);
+    let full = FuChecker::new("c08-fu-full", vec!["F0", "F2", "F4", "F5"], FAlpha::Full, vec![c08_positions]);
+    let p = FuChecker::new("c08-fu-positions", vec!["F1", "F4", "F5"], FAlpha::Positions, vec![c08_positions]);
     vec![explore_job(full, tier.pick(2, 3), Caps::default()), explore_job(p, tier.pick(3, 4), Caps::default())]
 }
 pub fn jobs_c10_explore(tier: Tier) -> Vec<Job> {
